@@ -112,13 +112,17 @@ def profiles_for(pid, tier):
                                   client_mailboxes=["m1"], w_open=14, w_add=12, w_close=6, w_drop=8, w_sweep=6, w_bigjump=6,
                                   w_claim=2, w_allocate=0, w_restart=0), N(100, 800))],
         "C07": [("general", dict(three, w_claim=14, w_release=12, w_close=8, w_list=8, names=["1", "2", "7"], w_reconnect=8), N(200, 2000)),
+                ("near-ids", dict(base, apps=["a", "b"], sides=["s1", "s2"], names=["1", "2", "12", "21"], p_near_ids=0.5, w_claim=12,
+                                  w_open=14, w_close=14, w_release=6, w_list=6, w_add=4), N(120, 1000)),
                 ("crowded-release", dict(base, apps=["a"], sides=["s1", "s2", "s3", "s4"], names=["1"], client_mailboxes=["m1"],
                                          w_claim=16, w_release=16, w_list=6, w_open=2, w_add=1, w_close=3, w_allocate=0,
                                          w_reconnect=8, w_connect=10), N(100, 800))],
         "C08": [("general", dict(three, w_close=14, w_open=12, w_claim=10, w_release=6, w_reconnect=8, names=["1", "2"],
                                  sides=["s1", "s2"]), N(200, 2000)),
                 ("third", dict(base, apps=["a"], sides=["s1", "s2", "s3"], names=["1"], client_mailboxes=["m1"], w_close=14,
-                               w_open=12, w_claim=10), N(60, 500))],
+                               w_open=12, w_claim=10), N(60, 500)),
+                ("near-ids", dict(base, apps=["a", "b"], sides=["s1", "s2"], names=["1", "2", "12", "21"], p_near_ids=0.5, w_claim=12,
+                                  w_open=14, w_close=14, w_release=6, w_add=8), N(100, 800))],
         "C09": [("reader", dict(three, _mode={"reader": True}, w_sweep=4, w_restart=1, usage=True), N(80, 600)),
                 ("reader-nousage", dict(three, _mode={"reader": True}, w_sweep=4, usage=False), N(60, 400))],
         "C10": [("crash", dict(three, w_crash=6, w_sweep=3, quiesce=True), N(160, 1500)),
@@ -135,11 +139,16 @@ def profiles_for(pid, tier):
                 ("odd-apps-shared-ids", dict(base, apps=["a", "", "ü"], sides=["s1", "s2"], names=["1", ""], shared_mailbox_ids=True,
                                              client_mailboxes=["m1"], w_open=12, w_add=12, w_sweep=4, quiesce=True), N(100, 800))],
         "C14": [("dup", dict(three, w_reconnect=6, w_sweep=2), N(120, 1000))],
-        "C15": [("usage", dict(three, usage=True, w_close=12, w_release=10, w_sweep=5, w_bigjump=3), N(200, 2000))],
+        "C15": [("usage", dict(three, usage=True, w_close=12, w_release=10, w_sweep=5, w_bigjump=3), N(200, 2000)),
+                ("crowded-expiry", dict(base, usage=True, apps=["a"], sides=["s1", "s2", "s3", "s4"], names=["1"], client_mailboxes=["m1"],
+                                        w_open=14, w_claim=12, w_close=8, w_add=4, w_release=4, quiesce=True), N(80, 600))],
         "C16": [("blur", dict(three, usage=True, blur="rand", w_close=12, w_release=10, w_sweep=5, w_bigjump=3), N(200, 2000)),
                 ("binds", dict(base, usage=True, blur="rand", w_connect=20, w_reconnect=10, p_badcv=0.3, w_restart=2, w_sweep=3,
                                w_bigjump=3), N(80, 600)),
-                ("float-times", dict(_special="float-times"), N(60, 600))],
+                ("float-times", dict(_special="float-times"), N(60, 600)),
+                ("crowded-expiry", dict(base, usage=True, blur="rand", apps=["a"], sides=["s1", "s2", "s3", "s4"], names=["1"],
+                                        client_mailboxes=["m1"], w_open=14, w_claim=12, w_close=8, w_add=4, w_release=4, quiesce=True),
+                 N(80, 600))],
         "C17": [("malformed", dict(three, w_malformed=14), N(200, 2000)),
                 ("odd-strings", dict(base, apps=["a", "", "ü"], sides=["s1", "", "s\u0000x"], names=["1", "", "ñ", "²", "①"], w_allocate=8,
                                      client_mailboxes=["m1", ""], w_malformed=8), N(80, 600)),
